@@ -182,6 +182,7 @@ def run(pid, tier):
     #      such are C20's business and are only counted here
     cviol, ccov, cruns = payments.conc_component(tier)
     cov["legs"]["D_concurrent_pairs"] = ccov["atomicity_payment_ledger"]
+    cov["legs"]["D_concurrent_pairs_enforce_balance"] = ccov.get("atomicity_payment_ledger_enforce", {})
     violations += [v for v in cviol if v["key"].startswith("C06")]
     if any(not v["key"].startswith("C06") for v in cviol):
         notes.append("concurrency leg: %d non-linearizable / stuck outcomes (reported by C20): %s" % (
